@@ -171,10 +171,10 @@ PLAN = {
                         + ([{"kind": "coverage", "name": "coverage"}] if tier == "thorough" else []),
     "C02": lambda tier: driver_legs("mutex", tier) + conc_legs("mutex", tier, sanitizers=True),
     "C03": lambda tier: driver_legs("mutex", tier) + conc_legs("mutex", tier),
-    "C04": lambda tier: driver_legs("mutex", tier),
+    "C04": lambda tier: driver_legs("mutex", tier) + conc_legs("mutex", tier),
     "C05": lambda tier: driver_legs("semaphore", tier) + conc_legs("semaphore", tier),
     "C06": lambda tier: driver_legs("semaphore", tier) + conc_legs("semaphore", tier),
-    "C07": lambda tier: driver_legs("semaphore", tier),
+    "C07": lambda tier: driver_legs("semaphore", tier) + conc_legs("semaphore", tier),
     "C08": lambda tier: driver_legs("mpmc", tier) + san_legs("mpmc-bval", tier, miri_shards=4 if tier == "quick" else 12) + conc_legs("mpmc", tier, sanitizers=True) + conc_legs("handles", tier),
     "C09": lambda tier: driver_legs("mpmc", tier) + conc_legs("mpmc", tier),
     "C10": lambda tier: driver_legs("mpmc", tier) + conc_legs("mpmc", tier),
